@@ -148,14 +148,25 @@ Pick == /\ phase = "gen" /\ Len(picks) < NDims(fam)
         /\ UNCHANGED <<evars, fam, phase>>
 
 Start == /\ phase = "gen" /\ Len(picks) = NDims(fam)
-         /\ LET prog == Assemble(fam, picks) IN
-            /\ AllowUnboundedGrowth \/ ExpandFix(prog.g, prog.mm, prog.b) # ResDeep
-            /\ gc' = prog.g /\ mc' = prog.mm /\ src' = prog.b
+         /\ LET prog == Assemble(fam, picks)
+                \* the definitions go through CalibrationSet::replace: identical signatures collapse
+                g == SetOfHistory(prog.g)
+                mm == SetOfHistory(prog.mm) IN
+            /\ AllowUnboundedGrowth \/ ExpandFix(g, mm, prog.b) # ResDeep
+            /\ gc' = g /\ mc' = mm /\ src' = prog.b
          /\ phase' = "run"
          /\ UNCHANGED <<withMap, m, fam, picks>>
 
-Run == phase = "run" /\ Step /\ UNCHANGED <<fam, picks, phase>>
-Next == Pick \/ Start \/ Run
+\* the machine's actions, one by one (so that TLC reports coverage per action)
+Running  == phase = "run" /\ UNCHANGED <<fam, picks, phase>>
+MCall     == Running /\ Call
+MReject   == Running /\ Reject
+MMatch    == Running /\ Match
+MReturn   == Running /\ Return
+MHoist    == Running /\ Hoist
+MHoistEnd == Running /\ HoistEnd
+MFinish   == Running /\ Finish
+Next == Pick \/ Start \/ MCall \/ MReject \/ MMatch \/ MReturn \/ MHoist \/ MHoistEnd \/ MFinish
 Spec == Init /\ [][Next]_vars
 FairSpec == Spec /\ WF_vars(Next)       \* for the termination property of C18
 
